@@ -306,7 +306,7 @@ class CHECK(Check):
         self.renders = None
 
     def init_dbs(self, tier):
-        """thorough: all databases for cases with <= 2 non-default features, the quick database set for cases with 3"""
+        """thorough: all databases for cases with <= 1 non-default feature(s), the quick database set for the others"""
         self.dbs = sqlref.databases(tier)
         self.narrow = None
         self.active = None
@@ -327,7 +327,7 @@ class CHECK(Check):
             yield self.cons[i], self.dbs[i]
 
     def choose_dbs(self, nondefault):
-        self.active = self.narrow if (self.narrow is not None and nondefault > 2) else None
+        self.active = self.narrow if (self.narrow is not None and nondefault > 1) else None
 
     def cases(self):
         d = 3 if self.tier == 'thorough' else 2
